@@ -205,6 +205,45 @@ pub trait ParallelIterator: Sized + Send {
     {
         FlatMapIter { p: self, f }
     }
+    /// Upstream creates one state per *job*, i.e. per piece of the split input; how the input is
+    /// split is the scheduler's business. Here the simulator draws the split points, and a state
+    /// is only ever reused for a later position of the same piece (see `StatePool`).
+    fn map_init<INIT, T, F, R>(self, init: INIT, f: F) -> MapInit<Self, INIT, T, F>
+    where
+        INIT: Fn() -> T + Sync + Send,
+        T: Send,
+        F: Fn(&mut T, Self::Item) -> R + Sync + Send,
+        R: Send,
+    {
+        MapInit { p: self, init, f, pool: StatePool::default() }
+    }
+    fn map_with<T, F, R>(self, init: T, f: F) -> MapWith<Self, T, F>
+    where
+        T: Send + Clone,
+        F: Fn(&mut T, Self::Item) -> R + Sync + Send,
+        R: Send,
+    {
+        MapWith { p: self, init: std::sync::Mutex::new(init), f, pool: StatePool::default() }
+    }
+    fn flatten(self) -> FlatMap<Self, fn(Self::Item) -> Self::Item>
+    where
+        Self::Item: IntoParallelIterator,
+    {
+        fn id<T>(x: T) -> T {
+            x
+        }
+        FlatMap { p: self, f: id::<Self::Item> as fn(Self::Item) -> Self::Item }
+    }
+    fn flatten_iter(self) -> FlatMapIter<Self, fn(Self::Item) -> Self::Item>
+    where
+        Self::Item: IntoIterator,
+        <Self::Item as IntoIterator>::Item: Send,
+    {
+        fn id<T>(x: T) -> T {
+            x
+        }
+        FlatMapIter { p: self, f: id::<Self::Item> as fn(Self::Item) -> Self::Item }
+    }
     fn inspect<F>(self, f: F) -> Inspect<Self, F>
     where
         F: Fn(&Self::Item) + Sync + Send,
@@ -515,6 +554,116 @@ where
 {
 }
 
+/// Per-job states of `map_init` / `map_with`. The input is cut into contiguous pieces at split
+/// points the simulator draws; a state is handed to an item only if it last served an earlier
+/// position of the same piece (a piece whose later part ran first was split there and gets a
+/// fresh state, as a stolen half does upstream). A state in use by a preempted worker (Mode T) is
+/// simply not in the pool, so the next item of that piece starts a fresh one.
+pub struct StatePool<T> {
+    piece_of: Vec<usize>,
+    idle: std::sync::Mutex<Vec<(usize, usize, T)>>, // (piece, last position served, state)
+}
+impl<T> Default for StatePool<T> {
+    fn default() -> Self {
+        StatePool { piece_of: Vec::new(), idle: std::sync::Mutex::new(Vec::new()) }
+    }
+}
+impl<T> StatePool<T> {
+    fn plan(&mut self, n: usize) {
+        let mut piece = 0;
+        self.piece_of = (0..n)
+            .map(|i| {
+                if i > 0 && simhook::choose(4, "map-init-split") == 0 {
+                    piece += 1;
+                }
+                piece
+            })
+            .collect();
+    }
+    fn take(&self, idx: usize) -> Option<T> {
+        let _s = simhook::baton::Suspend::new();
+        let piece = self.piece_of.get(idx).copied().unwrap_or(usize::MAX);
+        let mut idle = self.idle.lock().unwrap_or_else(|e| e.into_inner());
+        let best = idle
+            .iter()
+            .enumerate()
+            .filter(|(_, (p, last, _))| *p == piece && *last < idx)
+            .max_by_key(|(_, (_, last, _))| *last)
+            .map(|(k, _)| k)?;
+        Some(idle.swap_remove(best).2)
+    }
+    fn put(&self, idx: usize, state: T) {
+        let _s = simhook::baton::Suspend::new();
+        let piece = self.piece_of.get(idx).copied().unwrap_or(usize::MAX);
+        self.idle.lock().unwrap_or_else(|e| e.into_inner()).push((piece, idx, state));
+    }
+}
+
+pub struct MapInit<P, INIT, T, F> {
+    p: P,
+    init: INIT,
+    f: F,
+    pool: StatePool<T>,
+}
+impl<P, INIT, T, F, R> ParallelIterator for MapInit<P, INIT, T, F>
+where
+    P: ParallelIterator,
+    INIT: Fn() -> T + Sync + Send,
+    T: Send,
+    F: Fn(&mut T, P::Item) -> R + Sync + Send,
+    R: Send,
+{
+    type Item = R;
+    type Base = P::Base;
+    fn take_base(&mut self) -> Vec<P::Base> {
+        let base = self.p.take_base();
+        self.pool.plan(base.len());
+        base
+    }
+    fn preserves_order(&self) -> bool {
+        self.p.preserves_order()
+    }
+    fn process(&self, idx: usize, b: P::Base, out: &mut dyn FnMut(R)) {
+        let mut state = Some(self.pool.take(idx).unwrap_or_else(|| (self.init)()));
+        self.p.process(idx, b, &mut |x| out((self.f)(state.as_mut().unwrap(), x)));
+        self.pool.put(idx, state.take().unwrap());
+    }
+}
+
+pub struct MapWith<P, T, F> {
+    p: P,
+    init: std::sync::Mutex<T>,
+    f: F,
+    pool: StatePool<T>,
+}
+impl<P, T, F, R> ParallelIterator for MapWith<P, T, F>
+where
+    P: ParallelIterator,
+    T: Send + Clone,
+    F: Fn(&mut T, P::Item) -> R + Sync + Send,
+    R: Send,
+{
+    type Item = R;
+    type Base = P::Base;
+    fn take_base(&mut self) -> Vec<P::Base> {
+        let base = self.p.take_base();
+        self.pool.plan(base.len());
+        base
+    }
+    fn preserves_order(&self) -> bool {
+        self.p.preserves_order()
+    }
+    fn process(&self, idx: usize, b: P::Base, out: &mut dyn FnMut(R)) {
+        let fresh = || {
+            let _s = simhook::baton::Suspend::new();
+            self.init.lock().unwrap_or_else(|e| e.into_inner()).clone()
+        };
+        let mut state = Some(self.pool.take(idx).unwrap_or_else(fresh));
+        self.p.process(idx, b, &mut |x| out((self.f)(state.as_mut().unwrap(), x)));
+        self.pool.put(idx, state.take().unwrap());
+    }
+}
+
 pub struct Inspect<P, F> {
     p: P,
     f: F,
@@ -807,3 +956,5 @@ adaptor_into_iter!(FilterMap<P, F>);
 adaptor_into_iter!(FlatMap<P, F>);
 adaptor_into_iter!(FlatMapIter<P, F>);
 adaptor_into_iter!(Enumerate<P>);
+adaptor_into_iter!(MapInit<P, INIT, T, F>);
+adaptor_into_iter!(MapWith<P, T, F>);
